@@ -69,6 +69,31 @@ seeded = [d for d in data.values() if d.get("kind") == "seeded" and not d.get("w
 out.append("")
 out.append("Planted: %d of %d caught. Seeded: %d of %d caught (one further seeded change was withdrawn as not violating its property).\n" % (
     sum(1 for d in planted if d["exit"] == 1), len(planted), sum(1 for d in seeded if d["exit"] == 1), len(seeded)))
+# negative controls
+cpath = os.path.join(VERIF, "controls_results.json")
+if os.path.exists(cpath):
+    cdata = json.load(open(cpath))
+    out.append("### 11.3 Negative controls (`controls/<id>/`): changes under which the property still holds\n")
+    out.append("Substantial but property-preserving changes (alternative algorithms, other allocation and growth policies, "
+               "reader/writer locks, conversions in pieces, `unget` with a seek fallback, reworded messages, ...), most of them "
+               "written by sub-agents that were given only the property text and a scratch worktree and asked for refactorings a "
+               "maintainer could commit (433/433 tests pass with each; the argument why the property is preserved is in "
+               "`controls/<id>/notes.md`). The property's quick check is run against each one exactly as against the breaking "
+               "changes (`tools/sensitivity.py controls`) and **must stay silent**. A control that made a check speak up led "
+               "either to a correction of the check (noted below) or, had it really broken the property, would have been moved "
+               "to `seeded/`.\n")
+    out.append("| control | property | what changes | check |")
+    out.append("|---|---|---|---|")
+    for k in sorted(cdata):
+        d = cdata[k]
+        what = ""
+        mp = os.path.join(VERIF, "controls", k, "meta.json")
+        if os.path.exists(mp):
+            m = json.load(open(mp))
+            what = m.get("change", "") or m.get("summary", "")
+        out.append("| `%s` | %s | %s | %s |" % (k, d["prop"], what, "silent" if d["silent"] else "**ALARM** " + ", ".join(d["classes"])))
+    out.append("")
+    out.append("Silent on %d of %d negative controls.\n" % (sum(1 for d in cdata.values() if d["silent"]), len(cdata)))
 text = "\n".join(out) + "\n"
 p = os.path.join(VERIF, "DESIGN.md")
 s = open(p).read()
